@@ -107,3 +107,19 @@ package ast
 //@   loop 0: invariant lnWF(self) && self.size == old(self.size)
 //@   loop 0: modifies con0[_]
 //@   loop 0: decreases a - i
+
+// MoveOne: the element at source is moved to target; the elements in between
+// shift by one; everything else keeps its place (remove-then-insert on the sequence).
+//@ func (*linkedNodes).MoveOne props C15
+//@   requires lnWF(self) && self.size <= 70368744177664
+//@   modifies self.head, heap(nodeChunk)
+//@   ensures self.size == old(self.size) && lnWF(self)
+//@   ensures (0 <= source && source < self.size && 0 <= target && target < self.size && source < target) ==> (forall j int :: (0 <= j && j < self.size) ==> same(lnAt(self, j), old(lnAt(self, ite(j < source || j > target, j, ite(j == target, source, j + 1))))))
+//@   ensures (0 <= source && source < self.size && 0 <= target && target < self.size && source > target) ==> (forall j int :: (0 <= j && j < self.size) ==> same(lnAt(self, j), old(lnAt(self, ite(j < target || j > source, j, ite(j == target, source, j - 1))))))
+//@   ensures (source == target || source < 0 || source >= self.size || target < 0 || target >= self.size) ==> (forall j int :: (0 <= j && j < self.size) ==> same(lnAt(self, j), old(lnAt(self, j))))
+//@   loop 0: invariant source <= i && i <= target && lnWF(self) && self.size == old(self.size) && same(self.tail, old(self.tail)) && same(n, old(lnAt(self, source)))
+//@   loop 0: invariant forall j int :: (0 <= j && j < self.size) ==> same(lnAt(self, j), old(lnAt(self, ite(j >= source && j < i, j + 1, j))))
+//@   loop 0: decreases target - i
+//@   loop 1: invariant target <= i && i <= source && lnWF(self) && self.size == old(self.size) && same(self.tail, old(self.tail)) && same(n, old(lnAt(self, source)))
+//@   loop 1: invariant forall j int :: (0 <= j && j < self.size) ==> same(lnAt(self, j), old(lnAt(self, ite(j > i && j <= source, j - 1, j))))
+//@   loop 1: decreases i - target
